@@ -90,6 +90,17 @@ func (g *Gen) stdModel(v ssa.Value, name string, c *ssa.CallCommon, in ssa.Instr
 		g.recordWrite("E.uint8", c.Args[1])
 		g.stSet(st, "E.uint8", hso, app("store", h, app("s_obj", b.S), arr))
 		return true
+	case "github.com/pkg/errors.Wrapf", "github.com/pkg/errors.Wrap", "github.com/pkg/errors.WithStack", "github.com/pkg/errors.WithMessage":
+		used()
+		g.needErrIs()
+		e := arg(0)
+		a := g.stGet(st, "alloc", SMath)
+		id := g.define(v.Name()+".err", SMath, app("+", a, "1"))
+		g.stSet(st, "alloc", SMath, id)
+		// nil stays nil; otherwise a fresh wrapper whose chain continues with the wrapped error
+		r := g.setVal(v, app("ite", app("=", e.S, "inil"), "inil", app("ibox", fmt.Sprint(tagWrapErr), id)))
+		g.assume(fmt.Sprintf("(forall ((t!q Iface)) (! (=> (not (= %s inil)) (= (err_is %s t!q) (or (= %s t!q) (err_is %s t!q)))) :pattern ((err_is %s t!q))))", e.S, r.S, r.S, e.S, r.S))
+		return true
 	case "errors.Is", "github.com/pkg/errors.Is":
 		used()
 		g.needErrIs()
